@@ -344,3 +344,254 @@ Module ExampleT.
     rewrite E, <- Cv. apply (insync_tdh_fault (its_cfg running) sk _ _ _ _ badtdh more A B); [reflexivity|vm_compute; discriminate].
   Qed.
 End ExampleT.
+
+(* ================================================================== the IHW position: the first word of a data page *)
+Section FaultyIhw.
+  Context (HS : C04_stave.sites_handled).
+
+  (* the state machine at the start of a data page of a conforming link *)
+  Definition page_start_fsm (f : fstate) : Prop := ihw_state f = true \/ f = S_cIHW.
+
+  Lemma insync_ihw_page running ld h k pg opened w second tl pad s pos :
+    (l_format ld = 0 \/ l_format ld = 2) -> Forall gw (w :: second :: tl) -> W_tdh second -> (pad <= 15)%nat ->
+    pg_payload pg = layout (l_format ld) (w :: second :: tl) pad -> PEntry opened s ->
+    pos + 64 + 16 < 18446744073709551616 ->
+    exists sk s' more,
+      do_payload_checks (its_cfg running) s (render_rdh ld h k 0 pg) (pg_payload pg) pos = Ok (s', word_msgs (its_cfg running) sk w ++ more) /\
+      cs_fsm sk = cs_fsm s /\ page_start_fsm (cs_fsm s) /\
+      pos_of sk = C07_proofs.wpos (pos + 64) (10 + C07_proofs.pad_of (render_rdh ld h k 0 pg)) 0.
+  Proof.
+    intros Hfmt Hgw Hsec Hpad Hpl [Hrfv Hen] Hbound.
+    set (r := render_rdh ld h k 0 pg).
+    destruct (set_rdh_its s r pos Hrfv) as (s1 & E1 & F1 & R1 & V1 & W1).
+    destruct (C07_proofs.set_current_rdh_ok s r pos s1 E1) as (P1 & C1 & D1 & _).
+    assert (Hwords : words_of (pg_payload pg) = Some (w :: second :: tl)).
+    { rewrite Hpl. apply (layout_words _ _ _ second tl); auto. }
+    rewrite (c12_packet_words _ _ _ _ _ s1 _ E1 Hwords).
+    remember (second :: tl) as rest eqn:Erest.
+    destruct (C04_stave.cdp_words_ok HS (its_cfg running) (w :: rest) s1 []) as [[s' ms] Ew]. rewrite Ew.
+    cbn [cdp_words] in Ew. destruct (cdp_check (its_cfg running) s1 w) as [[s3 m]|p] eqn:Ec; [|discriminate].
+    destruct (cdp_words_extends _ _ _ _ _ _ Ew) as [more ->]. cbn [app].
+    exists s1, s', more. split; [unfold word_msgs; rewrite Ec; reflexivity|]. split; [exact F1|]. split.
+    - unfold page_start_fsm. destruct opened as [o|]; [right; apply Hen|left; exact Hen].
+    - assert (Hw64 : wrap64 (pos + 64) = pos + 64) by (unfold wrap64; apply N.mod_small; lia).
+      rewrite (pos_of_at s1 0 C1); rewrite ?P1, ?D1, ?Hw64; [reflexivity|lia|].
+      unfold C07_proofs.pad_of. destruct (rdh_data_format r =? 0); lia.
+  Qed.
+End FaultyIhw.
+
+Section FaultyIhwLink.
+  Context (HS : C04_stave.sites_handled).
+  Context (ld : link_desc) (Hwf : wf_link_rdh ld = true) (Hsys : l_system ld = Gen.Facts.its_system_id)
+          (Hfmt : l_format ld = 0 \/ l_format ld = 2).
+  Let layf (p : its_page) : list N := layout (l_format ld) (page_words p) (ip_pad p).
+
+  Theorem c02_insync_link_ihw running hbfs1 ihs1 h hbfs2 pgs1 pg pgs2 ips1 ip ips2 w second tl pad ps1 p ps2 :
+    l_hbfs ld = hbfs1 ++ h :: hbfs2 -> Forall2 (its_hbf_ok (l_format ld)) hbfs1 ihs1 ->
+    h_pages h = pgs1 ++ pg :: pgs2 ->
+    pages_ok h true None (ips1 ++ ip :: ips2) ->
+    map pg_payload pgs1 = map layf ips1 ->
+    Forall gw (w :: second :: tl) -> W_tdh second -> (pad <= 15)%nat ->
+    pg_payload pg = layout (l_format ld) (w :: second :: tl) pad ->
+    map strip ps1 = flat_map (render_hbf ld) hbfs1 ++ render_pages ld h 0 pgs1 ->
+    strip p = (render_rdh ld h (N.of_nat (length pgs1)) 0 pg, pg_payload pg) ->
+    c_off p + 64 + 16 < 18446744073709551616 ->
+    exists sk,
+      page_start_fsm (cs_fsm sk) /\ pos_of sk = c_off p + 64 /\
+      exists out more, run_validator (its_cfg running) (ps1 ++ p :: ps2) = Ok out /\ out = word_msgs (its_cfg running) sk w ++ more.
+  Proof.
+    intros Hl Hall Hpages Hpo Hpl1 Hgw Hsec Hpad Hpl Hm1 Hp Hbound.
+    pose proof (wf_parts ld Hwf) as (_ & _ & _ & _ & _ & _ & _ & _ & Hh & Ho). rewrite Hl in Hh, Ho.
+    rewrite forallb_app in Hh. apply andb_true_iff in Hh. destruct Hh as [Hh1 Hh2]. cbn [forallb] in Hh2.
+    apply andb_true_iff in Hh2. destruct Hh2 as [Hh _].
+    apply orbits_differ_prefix in Ho.
+    assert (Hsp : exists psA psB, ps1 = psA ++ psB /\ map strip psA = flat_map (render_hbf ld) hbfs1 /\ map strip psB = render_pages ld h 0 pgs1).
+    { exists (firstn (length (flat_map (render_hbf ld) hbfs1)) ps1), (skipn (length (flat_map (render_hbf ld) hbfs1)) ps1).
+      split; [symmetry; apply firstn_skipn|]. rewrite <- firstn_map, <- skipn_map, Hm1. split; [apply firstn_app_exact|apply skipn_app_exact]. }
+    destruct Hsp as (psA & psB & -> & HA & HB).
+    destruct (its_run_hbfs_then ld Hwf Hsys Hfmt running hbfs1 ihs1 Hall psA (link_init (its_cfg running)) [] None h Hh1 Ho HA) with (rest := psB ++ p :: ps2)
+      as (s1 & prev' & E1 & L1 & P1 & B1 & O1).
+    { unfold latch_ok, link_init, its_cfg, sanity_init. cbn. split; [left; reflexivity|right; rewrite Hsys; reflexivity]. }
+    { split; reflexivity. }
+    { intros _. reflexivity. }
+    pose proof Hh as Hh'. unfold wf_hbf in Hh'. repeat (apply andb_true_iff in Hh'; destruct Hh' as [Hh' ?]).
+    match goal with H : (N.of_nat (length (h_pages h)) <? 65535) = true |- _ => apply N.ltb_lt in H; rename H into Hn end.
+    rewrite Hpages, app_length in Hn. cbn [length] in Hn.
+    destruct (its_run_pages_split ld Hwf Hsys Hfmt running h Hh ips1 true None ip ips2 Hpo pgs1 0 s1 psB [] HB Hpl1 L1 P1
+                (fun X => between_inv ld prev' _ h (B1 X) O1) ltac:(lia) ltac:(reflexivity) (p :: ps2)) as (s2 & f2 & o2 & E2 & L2 & P2 & R2 & Q2 & F2).
+    rewrite N.add_0_l in R2, F2.
+    destruct p as [pr pp poff]. unfold strip in Hp. cbn [c_rdh c_payload c_off] in *. injection Hp as -> ->.
+    set (k := N.of_nat (length pgs1)) in *.
+    (* the packet: clean RDH, then the page *)
+    destruct (sane_rendered ld Hwf (lk_sanity s2) h k 0 pg L2 Hh ltac:(lia)) as [S1 S2].
+    destruct (rdh_sanity (lk_sanity s2) (render_rdh ld h k 0 pg)) as [ss t10] eqn:E10. cbn [fst snd] in S1, S2. subst t10.
+    assert (Hpne : pg_payload pg <> []).
+    { rewrite Hpl. apply layout_nonempty. inversion Hgw as [|? ? Gw _]; subst.
+      pose proof (gw_word10 [w] (Forall_cons _ Gw (Forall_nil _))) as X. inversion X; assumption. }
+    destruct (insync_ihw_page HS running ld h k pg o2 w second tl pad (lk_cdp s2) poff Hfmt Hgw Hsec Hpad Hpl P2 Hbound) as (sk & cs & more0 & Ecs & Fk & Pk & Posk).
+    assert (E3 : exists s3, link_step (its_cfg running) s2 {| c_rdh := render_rdh ld h k 0 pg; c_payload := pg_payload pg; c_off := poff |} =
+                            Ok (s3, word_msgs (its_cfg running) sk w ++ more0)).
+    { destruct running.
+      - destruct (running_data_page ld h k pg (lk_running s2) (R2 eq_refl) ltac:(lia)) as [R1' R2'].
+        destruct (running_check (lk_running s2) (render_rdh ld h k 0 pg)) as [rs t11] eqn:E11. cbn [fst snd] in R1', R2'. subst t11.
+        rewrite (its_step true s2 _ _ poff ss rs E10 E11 Hpne), Ecs. eexists. reflexivity.
+      - rewrite (its_step false s2 _ _ poff ss (lk_running s2) E10 eq_refl Hpne), Ecs. eexists. reflexivity. }
+    destruct E3 as [s3 E3].
+    exists sk. split; [rewrite Fk; exact Pk|]. split; [rewrite Posk; unfold C07_proofs.wpos; lia|].
+    destruct (C04_proofs.c04_no_panic_without_stave (its_cfg running) ((psA ++ psB) ++ {| c_rdh := render_rdh ld h k 0 pg; c_payload := pg_payload pg; c_off := poff |} :: ps2)
+                ltac:(discriminate)) as [out' Eout].
+    exists out'. unfold run_validator in Eout |- *. rewrite <- app_assoc in Eout |- *. rewrite E1, E2 in Eout |- *.
+    cbn [link_run] in Eout |- *. rewrite E3 in Eout |- *.
+    destruct (link_run (its_cfg running) s3 ps2 ([] ++ word_msgs (its_cfg running) sk w ++ more0)) as [[sf o]|site] eqn:Er; [|discriminate].
+    injection Eout as <-. destruct (link_run_keeps _ _ _ _ _ _ Er) as [more Em]. exists (more0 ++ more). split; [reflexivity|].
+    rewrite Em. cbn [app]. rewrite app_assoc. reflexivity.
+  Qed.
+End FaultyIhwLink.
+
+(* ---- what the word at the IHW position draws ---- *)
+Section InSyncFaultsIhw.
+  (* where only an IHW can stand -- the very first page, the page after a DDW0, a page that continues a packet -- EVERY word is taken
+     for the IHW: a word that is no sane IHW (wrong identifier, reserved bits) draws [E30] at the word *)
+  Lemma insync_ihw_fault_single c sk w more : (cs_fsm sk = S_InitialIHW \/ cs_fsm sk = S_IHW_ByDdw0 \/ cs_fsm sk = S_cIHW) ->
+    ihw_sanity w <> [] -> has_err (pos_of sk) 30 (word_msgs c sk w ++ more).
+  Proof.
+    intros Hf Hne. apply has_err_app. left.
+    destruct Hf as [Hf|[Hf|Hf]].
+    - apply (c02_ihw_sanity c sk w P_IHW eq_refl); [unfold advance, advance_k; rewrite Hf; reflexivity|left; reflexivity|exact Hne].
+    - apply (c02_ihw_sanity c sk w P_IHW eq_refl); [unfold advance, advance_k; rewrite Hf; reflexivity|left; reflexivity|exact Hne].
+    - apply (c02_ihw_sanity c sk w P_IHW_cont eq_refl); [unfold advance, advance_k; rewrite Hf; reflexivity|right; reflexivity|exact Hne].
+  Qed.
+
+  (* on a page that follows a complete packet or a no-data TDH (choice state) an IHW-identified word that breaks an IHW rule: [E30] *)
+  Lemma insync_ihw_fault_choice c sk w more : is_choice_state (cs_fsm sk) = true ->
+    nb 9 w = Gen.Facts.ihw_id -> ihw_sanity w <> [] -> has_err (pos_of sk) 30 (word_msgs c sk w ++ more).
+  Proof.
+    intros Hc Hid Hne. apply has_err_app. left.
+    apply (c02_ihw_sanity c sk w P_IHW eq_refl); [|left; reflexivity|exact Hne].
+    unfold advance, advance_k, choice_arm. rewrite Hid. change Gen.Facts.ihw_id with 224. change Gen.Facts.tdh_id with 232.
+    destruct (cs_fsm sk); try discriminate; reflexivity.
+  Qed.
+End InSyncFaultsIhw.
+
+(* ================================================================== the DDW0 position: the only word of the stop page *)
+Lemma layout_single_words fmt w pad : (fmt = 0 \/ fmt = 2) -> gw w -> (pad <= 15)%nat -> words_of (layout fmt [w] pad) = Some [w].
+Proof.
+  intros Hfmt Hg Hpad.
+  assert (Hgs : Forall gw [w]) by (constructor; [exact Hg|constructor]).
+  pose proof (gw_word10 [w] Hgs) as H10.
+  unfold layout. destruct Hfmt as [-> | ->]; cbn [N.eqb].
+  - exact (proj1 (c12_fmt0 [w] pad H10 ltac:(discriminate) Hpad)).
+  - refine (proj1 (c12_fmt2 [w] pad H10 Hpad (last_not_ff_words [w] Hgs ltac:(discriminate)) _)).
+    unfold detect_fmt0. cbn [concat]. rewrite app_nil_r.
+    assert (L : length w = 10%nat) by (destruct Hg as [[L _] _]; exact L).
+    rewrite <- L at 1. rewrite drop_app_exact.
+    destruct pad as [|pad]; [reflexivity|]. cbn [repeat take take_while_zero N.eqb]. reflexivity.
+Qed.
+
+Section FaultyDdw0.
+  Context (HS : C04_stave.sites_handled).
+  Context (ld : link_desc) (Hwf : wf_link_rdh ld = true) (Hsys : l_system ld = Gen.Facts.its_system_id)
+          (Hfmt : l_format ld = 0 \/ l_format ld = 2).
+  Let layf (p : its_page) : list N := layout (l_format ld) (page_words p) (ip_pad p).
+
+  (* the stop page of a heartbeat frame whose data pages conform, holding ANY word where the DDW0 stands *)
+  Theorem c02_insync_link_ddw0 running hbfs1 ihs1 h hbfs2 ips w pad ps1 p ps2 :
+    l_hbfs ld = hbfs1 ++ h :: hbfs2 -> Forall2 (its_hbf_ok (l_format ld)) hbfs1 ihs1 ->
+    pages_ok h true None ips -> ips <> [] -> map pg_payload (h_pages h) = map layf ips ->
+    gw w -> (pad <= 15)%nat -> pg_payload (h_stop h) = layout (l_format ld) [w] pad ->
+    map strip ps1 = flat_map (render_hbf ld) hbfs1 ++ render_pages ld h 0 (h_pages h) ->
+    strip p = (render_rdh ld h (N.of_nat (length (h_pages h))) 1 (h_stop h), pg_payload (h_stop h)) ->
+    c_off p + 64 + 16 < 18446744073709551616 ->
+    exists sk,
+      is_choice_state (cs_fsm sk) = true /\ pos_of sk = c_off p + 64 /\
+      exists out more, run_validator (its_cfg running) (ps1 ++ p :: ps2) = Ok out /\ out = word_msgs (its_cfg running) sk w ++ more.
+  Proof.
+    intros Hl Hall Hpo Hipsne Hpls Hgw Hpad Hpl Hm1 Hp Hbound.
+    pose proof (wf_parts ld Hwf) as (_ & _ & _ & _ & _ & _ & _ & _ & Hh & Ho). rewrite Hl in Hh, Ho.
+    rewrite forallb_app in Hh. apply andb_true_iff in Hh. destruct Hh as [Hh1 Hh2]. cbn [forallb] in Hh2.
+    apply andb_true_iff in Hh2. destruct Hh2 as [Hh _].
+    apply orbits_differ_prefix in Ho.
+    assert (Hsp : exists psA psB, ps1 = psA ++ psB /\ map strip psA = flat_map (render_hbf ld) hbfs1 /\ map strip psB = render_pages ld h 0 (h_pages h)).
+    { exists (firstn (length (flat_map (render_hbf ld) hbfs1)) ps1), (skipn (length (flat_map (render_hbf ld) hbfs1)) ps1).
+      split; [symmetry; apply firstn_skipn|]. rewrite <- firstn_map, <- skipn_map, Hm1. split; [apply firstn_app_exact|apply skipn_app_exact]. }
+    destruct Hsp as (psA & psB & -> & HA & HB).
+    destruct (its_run_hbfs_then ld Hwf Hsys Hfmt running hbfs1 ihs1 Hall psA (link_init (its_cfg running)) [] None h Hh1 Ho HA) with (rest := psB ++ p :: ps2)
+      as (s1 & prev' & E1 & L1 & P1 & B1 & O1).
+    { unfold latch_ok, link_init, its_cfg, sanity_init. cbn. split; [left; reflexivity|right; rewrite Hsys; reflexivity]. }
+    { split; reflexivity. }
+    { intros _. reflexivity. }
+    pose proof Hh as Hh'. unfold wf_hbf in Hh'. repeat (apply andb_true_iff in Hh'; destruct Hh' as [Hh' ?]).
+    match goal with H : (N.of_nat (length (h_pages h)) <? 65535) = true |- _ => apply N.ltb_lt in H; rename H into Hn end.
+    match goal with H : negb ?x = true |- _ => lazymatch x with context [h_pages] => rename H into Hne end end.
+    destruct (its_run_pages ld Hwf Hsys Hfmt running h Hh true None ips Hpo Hipsne (h_pages h) 0 s1 psB [] HB Hpls L1 P1
+                (fun X => between_inv ld prev' _ h (B1 X) O1) ltac:(lia) ltac:(reflexivity) (p :: ps2)) as (s2 & E2 & L2 & P2 & R2).
+    rewrite N.add_0_l in R2.
+    destruct p as [pr pp poff]. unfold strip in Hp. cbn [c_rdh c_payload c_off] in *. injection Hp as -> ->.
+    set (k := N.of_nat (length (h_pages h))) in *.
+    assert (Hk : k <> 0) by (unfold k; destruct (h_pages h); [discriminate Hne|cbn [length]; lia]).
+    (* the stop packet: clean RDH, then the one word *)
+    destruct (sane_rendered ld Hwf (lk_sanity s2) h k 1 (h_stop h) L2 Hh ltac:(lia)) as [S1 S2].
+    destruct (rdh_sanity (lk_sanity s2) (render_rdh ld h k 1 (h_stop h))) as [ss t10] eqn:E10. cbn [fst snd] in S1, S2. subst t10.
+    assert (Hpne : pg_payload (h_stop h) <> []).
+    { rewrite Hpl. apply layout_nonempty. pose proof (gw_word10 [w] (Forall_cons _ Hgw (Forall_nil _))) as X. inversion X; assumption. }
+    destruct P2 as [Hrfv Hch].
+    set (r := render_rdh ld h k 1 (h_stop h)).
+    destruct (set_rdh_its (lk_cdp s2) r poff Hrfv) as (c1 & Ec1 & F1 & R1 & V1 & W1).
+    destruct (C07_proofs.set_current_rdh_ok (lk_cdp s2) r poff c1 Ec1) as (Pp & Cc & Dd & _).
+    assert (Hwords : words_of (pg_payload (h_stop h)) = Some [w]) by (rewrite Hpl; apply layout_single_words; auto).
+    assert (Ecs : exists cs more0, do_payload_checks (its_cfg running) (lk_cdp s2) r (pg_payload (h_stop h)) poff = Ok (cs, word_msgs (its_cfg running) c1 w ++ more0)).
+    { rewrite (c12_packet_words _ _ _ _ _ c1 _ Ec1 Hwords).
+      destruct (C04_stave.cdp_words_ok HS (its_cfg running) [w] c1 []) as [[cs ms] Ew]. rewrite Ew.
+      cbn [cdp_words] in Ew. destruct (cdp_check (its_cfg running) c1 w) as [[c3 m]|q] eqn:Ec; [|discriminate].
+      injection Ew as <- <-. exists c3, []. unfold word_msgs. rewrite Ec, app_nil_r. reflexivity. }
+    destruct Ecs as (cs & more0 & Ecs).
+    assert (E3 : exists s3, link_step (its_cfg running) s2 {| c_rdh := r; c_payload := pg_payload (h_stop h); c_off := poff |} =
+                            Ok (s3, word_msgs (its_cfg running) c1 w ++ more0)).
+    { destruct running.
+      - destruct (running_stop_page ld h k (h_stop h) (lk_running s2) (R2 eq_refl) Hk) as [R1' R2'].
+        destruct (running_check (lk_running s2) (render_rdh ld h k 1 (h_stop h))) as [rs t11] eqn:E11. cbn [fst snd] in R1', R2'. subst t11.
+        unfold r. rewrite (its_step true s2 _ _ poff ss rs E10 E11 Hpne). fold r. rewrite Ecs. eexists. reflexivity.
+      - unfold r. rewrite (its_step false s2 _ _ poff ss (lk_running s2) E10 eq_refl Hpne). fold r. rewrite Ecs. eexists. reflexivity. }
+    destruct E3 as [s3 E3].
+    exists c1. split; [rewrite F1; exact Hch|]. split.
+    { assert (Hw64 : wrap64 (poff + 64) = poff + 64) by (unfold wrap64; apply N.mod_small; lia).
+      rewrite (pos_of_at c1 0 Cc); rewrite ?Pp, ?Dd, ?Hw64; [unfold C07_proofs.wpos; lia|lia|].
+      unfold C07_proofs.pad_of. destruct (rdh_data_format r =? 0); lia. }
+    subst r.
+    destruct (C04_proofs.c04_no_panic_without_stave (its_cfg running) ((psA ++ psB) ++ {| c_rdh := render_rdh ld h k 1 (h_stop h); c_payload := pg_payload (h_stop h); c_off := poff |} :: ps2)
+                ltac:(discriminate)) as [out' Eout].
+    exists out'. unfold run_validator in Eout |- *. rewrite <- app_assoc in Eout |- *. rewrite E1, E2 in Eout |- *.
+    cbn [link_run] in Eout |- *. rewrite E3 in Eout |- *.
+    destruct (link_run (its_cfg running) s3 ps2 ([] ++ word_msgs (its_cfg running) c1 w ++ more0)) as [[sf o]|site] eqn:Er; [|discriminate].
+    injection Eout as <-. destruct (link_run_keeps _ _ _ _ _ _ Er) as [more Em]. exists (more0 ++ more). split; [reflexivity|].
+    rewrite Em. cbn [app]. rewrite app_assoc. reflexivity.
+  Qed.
+End FaultyDdw0.
+
+Section InSyncFaultsDdw0.
+  Context (HS : C04_stave.sites_handled).
+  (* a DDW0-identified word that breaks a DDW0 rule (reserved bits, index): [E60] at the word *)
+  Lemma insync_ddw0_fault c sk w more : is_choice_state (cs_fsm sk) = true ->
+    nb 9 w = Gen.Facts.ddw0_id -> ddw0_sanity w <> [] -> has_err (pos_of sk) 60 (word_msgs c sk w ++ more).
+  Proof.
+    intros Hc Hid Hne. apply has_err_app. left. apply (c02_ddw0_sanity c sk w); [|exact Hne].
+    unfold advance, advance_k, choice_arm. rewrite Hid. change Gen.Facts.ddw0_id with 228. change Gen.Facts.tdh_id with 232. change Gen.Facts.ihw_id with 224.
+    destruct (cs_fsm sk); try discriminate; reflexivity.
+  Qed.
+  (* an identifier that is none of TDH / IHW / DDW0 where the DDW0 (or a new packet) is due: [E990] / [E992] at the word *)
+  Lemma insync_unknown_id_choice_state c sk w more : is_choice_state (cs_fsm sk) = true ->
+    nb 9 w <> Gen.Facts.tdh_id -> nb 9 w <> Gen.Facts.ihw_id -> nb 9 w <> Gen.Facts.ddw0_id ->
+    has_err (pos_of sk) 990 (word_msgs c sk w ++ more) \/ has_err (pos_of sk) 992 (word_msgs c sk w ++ more).
+  Proof.
+    intros Hc H1 H2 H3. apply N.eqb_neq in H1, H2, H3.
+    destruct (cs_fsm sk) eqn:Hf; try discriminate.
+    - left. apply has_err_app. left.
+      destruct (C02_total.c02_unrecognised_total HS c sk w A_TDH_or_DDW0) as (s1 & m & E & Hm).
+      { unfold advance, advance_k, choice_arm. rewrite Hf, H1, H2, H3. reflexivity. }
+      unfold word_msgs. rewrite E. exact Hm.
+    - right. apply has_err_app. left.
+      destruct (C02_total.c02_unrecognised_total HS c sk w A_DDW0_or_TDH_IHW) as (s1 & m & E & Hm).
+      { unfold advance, advance_k, choice_arm. rewrite Hf, H1, H2, H3. reflexivity. }
+      unfold word_msgs. rewrite E. exact Hm.
+  Qed.
+End InSyncFaultsDdw0.
